@@ -142,4 +142,23 @@ pub proof fn g1_generator_on_curve()
         lit = ", ".join(hex(x) + "u64" for x in l)
         vf = 'fq_val' if F == 'Fq' else 'fr_val'
         u.add(f"pub proof fn const_{mod}_one() ensures {vf}(seq![{lit}]) == 1 {{ assert({vf}(seq![{lit}]) == 1) by(compute); }}")
+    # multiplicative generator, two-adicity and 2^S-th root of unity of both fields (derive output of #[PrimeFieldGenerator]; ROOT_OF_UNITY drives Fr::sqrt).
+    # Expected values are computed here from the moduli: g = 2 resp. 7 (the standard choices), S = v2(m - 1), root = g^((m-1)/2^S); the root has exact order 2^S.
+    for F, mod, mval, g, vf, nl in (('Fq', 'fq', Q, 2, 'fq_val', 6), ('Fr', 'fr', R, 7, 'fr_val', 4)):
+        s = ((mval - 1) & -(mval - 1)).bit_length() - 1
+        tt = (mval - 1) >> s
+        root = pow(g, tt, mval)
+        if tt % 2 != 1 or pow(root, 1 << (s - 1), mval) != mval - 1 or pow(g, (mval - 1) // 2, mval) != mval - 1:
+            raise weave.AnchorLost(f"{F}: reference values of the generator / root of unity are inconsistent")
+        sc = u.real_const(mod, 'S')
+        ms = re.search(r'=\s*(\d+)(?:u32)?\s*;', sc)
+        if not ms:
+            raise weave.AnchorLost(f"constant {mod}::S not recognised")
+        u.add(f"// {mod}::S: 2^S * t = modulus - 1 with t odd\npub proof fn const_{mod}_two_adicity() ensures {int(ms.group(1))}int == {s}int {{ }}")
+        for name, e, note in (('GENERATOR', g, f"multiplicative generator {g} (a non-residue)"), ('ROOT_OF_UNITY', root, "GENERATOR^t, of exact order 2^S")):
+            l = limbs_of(u.real_const(mod, name))
+            if len(l) != nl:
+                raise weave.AnchorLost(f"constant {mod}::{name}: {len(l)} limbs")
+            lit = ", ".join(hex(x) + "u64" for x in l)
+            u.add(f"// {mod}::{name}: {note}\npub proof fn const_{mod}_{name}() ensures {vf}(seq![{lit}]) == {hex(e)}int {{ assert({vf}(seq![{lit}]) == {hex(e)}int) by(compute); }}")
     return u
